@@ -1,0 +1,8 @@
+//go:build !verif
+
+// Package simhook provides yield points for the deterministic simulation
+// harness. Without the build tag "verif" every call compiles to nothing.
+package simhook
+
+// Yield is a no-op in normal builds.
+func Yield(string) {}
